@@ -183,7 +183,8 @@ func genInt(t *rapid.T) Case {
 	es := fmt.Sprint(e)
 	if rapid.IntRange(0, 4).Draw(t, "negexp") == 0 {
 		// negative exponent that still denotes an integer: append that many zeros to the mantissa
-		k := rapid.IntRange(1, 4).Draw(t, "k")
+		// few zeros, about as many as an int has digits, or far more (the mantissa alone is then out of range)
+		k := rapid.OneOf(rapid.IntRange(1, 4), rapid.IntRange(15, 24), rapid.IntRange(25, 60)).Draw(t, "k")
 		m = m + strings.Repeat("0", k)
 		es = fmt.Sprintf("-%d", k)
 		w = mw
@@ -280,6 +281,10 @@ func genString(t *rapid.T) Case {
 		switch k := rapid.IntRange(0, 9).Draw(t, "atom"); {
 		case k < 6:
 			a := rapid.SampledFrom(textAtoms).Draw(t, "text")
+			if kind == "rawstring" && rapid.IntRange(0, 3).Draw(t, "physical") == 0 {
+				// raw strings may contain physical line breaks and control characters: they are kept as written
+				a = rapid.SampledFrom([]string{"\n", "\r\n", "\r", "\t", "\r\n\r\n", " \r\n "}).Draw(t, "physical char")
+			}
 			if a == "#" && kind == "embedded" {
 				a = "+" // a lone `#` inside an interpolated string is rejected by the lexer (outside this property)
 			}
